@@ -1,6 +1,6 @@
 #!/bin/bash
 # tools/run_seeds.sh [name...]   — run our quick checks against confirmed seeded changes (apply to /repo, check, revert)
-cd /verif
+cd "$(dirname "$0")/.."
 names="$@"; [ -z "$names" ] && names=$(ls seeded)
 for n in $names; do
   id=${n%%_*}
